@@ -36,6 +36,16 @@ def run(rep):
     names = sorted(g['sym'])
     for root in rng.sample(leafy, min(len(leafy), 12 if quick else 120)):
         cases.append({'root': root, 'word': [rng.choice(names) for _ in range(rng.randrange(1, 4))], 'unchecked_root': True})
+    # two variants of every fifth case: the later of two same-named children added first with forward=1; a stray child added while checking was off
+    extra = []
+    for k, c in enumerate(list(cases)):
+        if c.get('unchecked_root'):
+            continue
+        if len(set(c['word'])) < len(c['word']):
+            extra.append(dict(c, variant='forward'))
+        if k % 5 == 0:
+            extra.append(dict(c, variant='stray', stray=rng.choice(names)))
+    cases += extra
     n = C.NPROC
     chunks = [cases[i::n] for i in range(n)]
     procs = [subprocess.Popen([C.PY, '-W', 'ignore', os.path.join(C.VERIF, 'corr', 'c14_runner.py')], stdin=subprocess.PIPE, stdout=subprocess.PIPE,
